@@ -1594,6 +1594,18 @@ def b_abs(it, x):
     return abs(x)
 
 
+@builtin(_b.round)
+def b_round(it, x, *nd):
+    x = it.resolve(x)
+    if isinstance(x, SFloatTab) and not nd:
+        return V.float_tab_trunc(x, round)
+    if isinstance(x, SInt) and not nd:
+        return x
+    if V.is_sym(x) or any(V.is_sym(n) for n in nd):
+        raise Unsupported("round() of %r" % (x,))
+    return round(x, *nd)
+
+
 @builtin(_b.any)
 def b_any(it, xs):
     parts = []
